@@ -273,8 +273,19 @@ mi_decl_nodiscard mi_decl_restrict void* mi_calloc_aligned(size_t count, size_t 
 // Aligned re-allocation
 // ------------------------------------------------------
 
+// as for the aligned allocation functions: the alignment must be a power of two
+static bool mi_realloc_alignment_is_valid(size_t newsize, size_t alignment) {
+  if mi_likely(alignment != 0 && _mi_is_power_of_two(alignment)) return true;
+  #if MI_DEBUG > 0
+  _mi_error_message(EOVERFLOW, "aligned reallocation requires the alignment to be a power-of-two (size %zu, alignment %zu)\n", newsize, alignment);
+  #else
+  MI_UNUSED(newsize);
+  #endif
+  return false;
+}
+
 static void* mi_heap_realloc_zero_aligned_at(mi_heap_t* heap, void* p, size_t newsize, size_t alignment, size_t offset, bool zero) mi_attr_noexcept {
-  mi_assert(alignment > 0);
+  if mi_unlikely(!mi_realloc_alignment_is_valid(newsize,alignment)) return NULL;  // (the block `p` stays valid)
   if (alignment <= sizeof(uintptr_t) && (alignment <= 1 || (offset % alignment) == 0)) return _mi_heap_realloc_zero(heap,p,newsize,zero);  // plain blocks are word aligned (but honor a misaligning offset)
   if (p == NULL) return mi_heap_malloc_zero_aligned_at(heap,newsize,alignment,offset,zero);
   size_t size = mi_usable_size(p);
@@ -302,7 +313,7 @@ static void* mi_heap_realloc_zero_aligned_at(mi_heap_t* heap, void* p, size_t ne
 }
 
 static void* mi_heap_realloc_zero_aligned(mi_heap_t* heap, void* p, size_t newsize, size_t alignment, bool zero) mi_attr_noexcept {
-  mi_assert(alignment > 0);
+  if mi_unlikely(!mi_realloc_alignment_is_valid(newsize,alignment)) return NULL;  // (the block `p` stays valid)
   if (alignment <= sizeof(uintptr_t)) return _mi_heap_realloc_zero(heap,p,newsize,zero);
   // note: the result is aligned to `alignment` as such (as the `alloc_align` attribute in the header promises), also
   // if `p` is not; use the `_at` variant to keep an offset.
